@@ -225,6 +225,11 @@ def run(prop, tier, replay=None):
     scen = [concretize.scenario(a["id"], a["hist"], a["model"], a["retries"],
                                 meta={"src": a["id"].split("_")[0]}) for a in abstract]
     by_id = {a["id"]: a for a in abstract}
+    if not replay:
+        # scenarios outside the abstract alphabet (requests with dozens of objects, ...): executed and judged by the
+        # monitor, not part of the conformance check
+        with open(vlib.ROOT + "/corpus/ost_concrete.json") as f:
+            scen += json.load(f)
     log(prop, len(scen), "scenarios")
 
     # 3. execute on the real stack
